@@ -35,7 +35,9 @@ package sched
 
 import (
 	"fmt"
+	"regexp"
 	"runtime"
+	"strings"
 	"time"
 )
 
@@ -83,6 +85,7 @@ type Result struct {
 	Stuck       bool
 	StuckWorker int
 	StuckPoint  string
+	StuckState  string // goroutine state of the worker ("sync.Mutex.Lock", "chan receive", ...)
 	Dump        string
 	// Panics holds the value a worker function panicked with (by worker id).
 	Panics map[int]any
@@ -116,9 +119,13 @@ type Options struct {
 	Classify func(worker int, point string) Action
 	// MaxDecisions bounds the length of a run (default 100000).
 	MaxDecisions int
-	// Watchdog is the time the controller waits for the running worker
-	// (default 20 s).  It only matters when something is wrong.
+	// Watchdog is the time after which the controller looks at the state of
+	// the running worker's goroutine (default 20 s): a goroutine that is
+	// blocked in the runtime makes the run stuck, one that is running or
+	// runnable (a starved process) is waited for, up to GiveUp (default
+	// 15 min) in all.  Both only matter when something is wrong.
 	Watchdog time.Duration
+	GiveUp   time.Duration
 }
 
 type abortSignal struct{}
@@ -166,6 +173,9 @@ func New(schedule []int, opt Options) *Controller {
 	if opt.Watchdog <= 0 {
 		opt.Watchdog = 20 * time.Second
 	}
+	if opt.GiveUp <= 0 {
+		opt.GiveUp = 15 * time.Minute
+	}
 	return &Controller{opt: opt, schedule: schedule, current: -1, signalled: map[any]bool{}}
 }
 
@@ -203,6 +213,7 @@ func (c *Controller) Yield(point string) {
 	c.park(w)
 }
 
+//go:noinline
 func (c *Controller) park(w *worker) {
 	c.events <- event{w: w.id, kind: evParked}
 	if abort := <-w.resume; abort {
@@ -223,26 +234,7 @@ func (c *Controller) Run(fns []func()) *Result {
 	for i := range fns {
 		w := &worker{id: i, resume: make(chan bool, 1), point: "start"}
 		c.workers[i] = w
-		fn := fns[i]
-		go func() {
-			defer func() { finished <- struct{}{} }()
-			if abort := <-w.resume; abort {
-				return
-			}
-			w.started = true
-			defer func() {
-				if r := recover(); r != nil {
-					if _, ok := r.(abortSignal); ok {
-						return // unwound by the controller; it is not waiting
-					}
-					c.res.Panics[w.id] = r
-				}
-				w.done = true
-				c.current = -1
-				c.events <- event{w: w.id, kind: evDone}
-			}()
-			fn()
-		}()
+		go c.runWorker(w, fns[i], finished)
 	}
 
 	timer := time.NewTimer(c.opt.Watchdog)
@@ -300,24 +292,88 @@ func (c *Controller) Run(fns []func()) *Result {
 		w.guard, w.wait = nil, nil
 		c.current = w.id
 		w.resume <- false
-		select {
-		case <-c.events:
-			c.current = -1
-		case <-timer.C:
-			c.res.Stuck = true
-			c.res.StuckWorker = w.id
-			c.res.StuckPoint = w.point
-			buf := make([]byte, 1<<20)
-			c.res.Dump = string(buf[:runtime.Stack(buf, true)])
-			// the goroutines of this run are leaked: nothing can be done
-			// about a goroutine blocked in the runtime
-			return &c.res
+		for waited := time.Duration(0); ; {
+			select {
+			case <-c.events:
+				c.current = -1
+			case <-timer.C:
+				// Is the worker blocked in the Go runtime, or is this process
+				// just starved?  Only a goroutine that is neither running nor
+				// runnable is stuck.
+				timer.Reset(c.opt.Watchdog)
+				waited += c.opt.Watchdog
+				state, dump := tokenHolderState()
+				select {
+				case <-c.events: // the worker is back (it may have been seen in its send)
+					c.current = -1
+				default:
+					if (state == "running" || state == "runnable" || state == "unknown") && waited < c.opt.GiveUp {
+						continue
+					}
+					c.res.Stuck = true
+					c.res.StuckWorker = w.id
+					c.res.StuckPoint = w.point
+					c.res.StuckState = state
+					c.res.Dump = dump
+					// the goroutines of this run are leaked: nothing can be
+					// done about a goroutine blocked in the runtime
+					return &c.res
+				}
+			}
+			break
 		}
 	}
 	for range c.workers {
 		<-finished
 	}
 	return &c.res
+}
+
+// runWorker is the body of a worker goroutine.
+//
+//go:noinline
+func (c *Controller) runWorker(w *worker, fn func(), finished chan struct{}) {
+	defer func() { finished <- struct{}{} }()
+	if abort := c.awaitStart(w); abort {
+		return
+	}
+	w.started = true
+	defer func() {
+		if r := recover(); r != nil {
+			if _, ok := r.(abortSignal); ok {
+				return // unwound by the controller; it is not waiting
+			}
+			c.res.Panics[w.id] = r
+		}
+		w.done = true
+		c.current = -1
+		c.events <- event{w: w.id, kind: evDone}
+	}()
+	fn()
+}
+
+//go:noinline
+func (c *Controller) awaitStart(w *worker) bool { return <-w.resume }
+
+var goroutineState = regexp.MustCompile(`^goroutine \d+ \[([^\],]+)`)
+
+// tokenHolderState finds the worker goroutine that is neither parked nor
+// waiting for its start (that is the one holding the token) in a dump of all
+// goroutines and returns its state.
+func tokenHolderState() (state, dump string) {
+	buf := make([]byte, 4<<20)
+	dump = string(buf[:runtime.Stack(buf, true)])
+	for _, block := range strings.Split(dump, "\n\n") {
+		if !strings.Contains(block, "sched.(*Controller).runWorker") ||
+			strings.Contains(block, "sched.(*Controller).park") ||
+			strings.Contains(block, "sched.(*Controller).awaitStart") {
+			continue
+		}
+		if m := goroutineState.FindStringSubmatch(block); m != nil {
+			return m[1], dump
+		}
+	}
+	return "unknown", dump
 }
 
 // abort unwinds every unfinished worker (all of them are parked).
